@@ -32,6 +32,11 @@ NATIVE_TYPES = [
     (("int32_t",), "int32_t", "must"),
     (("int64_t",), "int64_t", "must"),
     (("uint8_t",), "uint8_t", "must"),
+    (("int8_t",), "int8_t", "must"),
+    (("int16_t",), "int16_t", "must"),
+    (("uint16_t",), "uint16_t", "must"),
+    (("uint32_t",), "uint32_t", "must"),
+    (("uint64_t",), "uint64_t", "must"),
 ]
 # permutations a C++ compiler accepts; Shroud may accept them (then it must agree) or diagnose
 PERMUTED_TYPES = [
